@@ -12,10 +12,27 @@ def sst(l): return {"defines": {"L": l}, "unwind": l + 3, "unwindset": {"vp_strt
 add("sscanf_safe", "h_sscanf_safe", SS, {"quick": sst(5), "thorough": sst(7)}, checks="safety+")
 PU = {"unwind": 24, "unwindset": {"hwloc_snprintf.0": 2, "hwloc__type_match.0": 30, "strchr.0": 90, "vp_strto.0": 4, "vp_strto.1": 12}}
 KN = ["plain", "cache", "group", "bridge", "osdev"]
+TN = ["Machine", "Package", "Die", "Core", "PU", "L1Cache", "L2Cache", "L3Cache", "L4Cache", "L5Cache", "L1iCache", "L2iCache", "L3iCache", "Group", "NUMANode", "MemCache", "Bridge", "PCIDev", "OSDev", "Misc"]
+QUICK_TYPES = (1, 6, 11, 13, 14, 16)
+def rt(t, extra, bounds):
+    # longest text of the type: plain/cache names <= 8 chars ("L3iCache", "NUMANode", "MemCache"), Group + 10 digits, "HostBridge", OS devices up to 62
+    txt = 62 if t == 18 else 16 if t == 13 else 11
+    d = {"TYPE": t, "BUFSZ": txt + 2}; d.update(extra)
+    return {"defines": d, "unwind": 24, "unwindset": {"hwloc_snprintf.0": 2, "hwloc__type_match.0": txt + 3, "strchr.0": txt + 3, "vp_strto.0": 4, "vp_strto.1": 12, "strncasecmp.0": 8}, "bounds": bounds}
+for t in range(20):
+    if t == 18: continue
+    tiers = {"thorough": rt(t, {"GROUPMAX": 4294967294}, "type %s with any group depth" % TN[t])}
+    if t in QUICK_TYPES:
+        tiers["quick"] = rt(t, {"GROUPMAX": 999}, "type %s (thorough tier: exhaustive split over all 20 types); attributes symbolic: cache type, group depth <= 999 or -1, bridge upstream type; every flag word without SHORT_NAMES" % TN[t])
+    add("roundtrip_%02d_%s" % (t, TN[t]), "h_roundtrip", PR + SS, tiers, cost=5)
+add("roundtrip_18_OSDev_3bits", "h_roundtrip", PR + SS, {"quick": rt(18, {"OSDEVMASK": "0x7UL", "BUFSZ": 40}, "OS devices with any subset of the first 3 type bits; every flag word without SHORT_NAMES"),
+                                                         "thorough": rt(18, {"OSDEVMASK": "0x7UL", "BUFSZ": 40}, "as quick")}, cost=40)
+add("roundtrip_18_OSDev_7bits", "h_roundtrip", PR + SS, {"thorough": rt(18, {}, "OS devices with any subset of the 7 type bits")}, core=False, cost=60, timeout=1700)
 for k in range(5):
-    add("roundtrip_" + KN[k], "h_roundtrip", PR + SS, {"quick": dict(PU, defines={"GROUPMAX": 999, "KIND": k}, bounds="kind %s: every type of the kind, attributes symbolic (cache attrs consistent with the type, group depth <= 999 or -1, both bridge upstream types, every subset of the 7 OS-device type bits), every flag word without SHORT_NAMES" % KN[k]),
-                                                      "thorough": dict(PU, defines={"GROUPMAX": 4294967294, "KIND": k}, bounds="as quick with any group depth")})
-    add("type_cursor_" + KN[k], "h_type_cursor", PR, {"quick": dict(PU, defines={"KIND": k}, unwind=52, bounds="kind %s; buffer size 0..48; symbolic canary byte" % KN[k]), "thorough": dict(PU, defines={"KIND": k}, unwind=52)})
+    dq = {"KIND": k}
+    if k == 4: dq["OSDEVMASK"] = "0x7UL"
+    add("type_cursor_" + KN[k], "h_type_cursor", PR, {"quick": dict(PU, defines=dq, unwind=52, bounds="kind %s%s; buffer size 0..48; symbolic canary byte" % (KN[k], " (first 3 type bits)" if k == 4 else "")), "thorough": dict(PU, defines=dq, unwind=52)}, cost=20)
+add("type_cursor_osdev_7bits", "h_type_cursor", PR, {"thorough": dict(PU, defines={"KIND": 4}, unwind=52, bounds="OS devices with any of the 7 type bits whose text fits 47 characters; buffer size 0..48")}, core=False, cost=60)
 add("osdev_print_terminates", "h_osdev_print_terminates", PR, {"quick": dict(PU, bounds="any 64-bit OS-device type word, any flag word"), "thorough": dict(PU)}, termination=True)
 add("types", "h_types", ["hwloc_compare_types", "hwloc_obj_type_is_normal", "hwloc_obj_type_is_memory", "hwloc_obj_type_is_io", "hwloc_obj_type_is_cache", "hwloc_obj_type_is_dcache", "hwloc_obj_type_is_icache"],
     {"quick": {"unwind": 2, "bounds": "all triples of object types"}, "thorough": {"unwind": 2}}, units=["hwloc/misc.c", "hwloc/topology.c"])
